@@ -168,6 +168,10 @@ type Output struct {
 	// base64.<X>.EncodeToString in scanWriter.writeFoot, base64.<X>.DecodeString in handleInputCommand;
 	// "?" when a site does not name exactly one
 	MvtEncode, MvtDecode string
+	// handleInputCommand's `if cmd == "hello"` branch switches msg.OutputType for its one reply: true when
+	// the branch saves the mode (x := msg.OutputType) and every return of the branch is preceded by
+	// msg.OutputType = x (netServe writes msg.OutputType back into client.outputType after the handler)
+	HelloRestores bool
 }
 
 type xl struct {
@@ -715,6 +719,7 @@ func Extract(repo string) (*Output, error) {
 				out.MvtEncode = joinSite(out.MvtEncode, base64Sites(fd, "EncodeToString"))
 			case "handleInputCommand":
 				out.MvtDecode = joinSite(out.MvtDecode, base64Sites(fd, "DecodeString"))
+				out.HelloRestores = helloRestores(fd)
 			}
 		}
 	}
@@ -726,6 +731,81 @@ func Extract(repo string) (*Output, error) {
 	}
 	out.scanGrammar()
 	return out, nil
+}
+
+// isMsgOutputType: the expression msg.OutputType
+func isMsgOutputType(e ast.Expr) bool {
+	sel, ok := e.(*ast.SelectorExpr)
+	if !ok || sel.Sel.Name != "OutputType" {
+		return false
+	}
+	id, ok := sel.X.(*ast.Ident)
+	return ok && id.Name == "msg"
+}
+
+// helloRestores recognises, in the top-level `if cmd == "hello" { ... }` of the function: a
+// statement `x := msg.OutputType` and, for every return statement of the block (at its top level;
+// a return nested deeper makes the answer false), an earlier top-level `msg.OutputType = x` after
+// the last assignment of another value to msg.OutputType.
+func helloRestores(fd *ast.FuncDecl) bool {
+	for _, st := range fd.Body.List {
+		ifs, ok := st.(*ast.IfStmt)
+		if !ok {
+			continue
+		}
+		be, ok := ifs.Cond.(*ast.BinaryExpr)
+		if !ok || be.Op != token.EQL {
+			continue
+		}
+		id, ok1 := be.X.(*ast.Ident)
+		lit, ok2 := be.Y.(*ast.BasicLit)
+		if !ok1 || !ok2 || id.Name != "cmd" || lit.Value != `"hello"` {
+			continue
+		}
+		saved := ""
+		restored := false
+		sawReturn := false
+		for _, s := range ifs.Body.List {
+			switch t := s.(type) {
+			case *ast.AssignStmt:
+				if len(t.Lhs) == 1 && len(t.Rhs) == 1 {
+					if l, ok := t.Lhs[0].(*ast.Ident); ok && t.Tok == token.DEFINE && isMsgOutputType(t.Rhs[0]) {
+						saved = l.Name
+					}
+					if isMsgOutputType(t.Lhs[0]) {
+						r, ok := t.Rhs[0].(*ast.Ident)
+						restored = ok && saved != "" && r.Name == saved
+					}
+				}
+			case *ast.ReturnStmt:
+				sawReturn = true
+				if !restored {
+					return false
+				}
+			default:
+				// a nested statement that assigns msg.OutputType (the switch to RESP) un-restores; a nested return is not understood
+				nested := false
+				ast.Inspect(s, func(n ast.Node) bool {
+					switch u := n.(type) {
+					case *ast.ReturnStmt:
+						nested = true
+					case *ast.AssignStmt:
+						for _, l := range u.Lhs {
+							if isMsgOutputType(l) {
+								restored = false
+							}
+						}
+					}
+					return true
+				})
+				if nested {
+					return false
+				}
+			}
+		}
+		return sawReturn && saved != ""
+	}
+	return false
 }
 
 // base64Sites lists the encodings X of every call base64.X.<method>(...) in the function.
@@ -1083,6 +1163,8 @@ func (o *Output) Coq() string {
 	sb.WriteString("(* the base64 encoding named by scanWriter.writeFoot for the \"mvt\" member (base64.<name>.EncodeToString)\n   and by handleInputCommand for the HTTP .mvt route (base64.<name>.DecodeString): Model/Mvt.v *)\n")
 	sb.WriteString("Definition mvt_json_encoding : bytes := (* " + coqComment(o.MvtEncode) + " *) " + coqBytes(o.MvtEncode) + ".\n")
 	sb.WriteString("Definition mvt_http_decoding : bytes := (* " + coqComment(o.MvtDecode) + " *) " + coqBytes(o.MvtDecode) + ".\n\n")
+	sb.WriteString("(* handleInputCommand's HELLO branch puts msg.OutputType back before it returns (Model/JsonMode.v) *)\n")
+	sb.WriteString(fmt.Sprintf("Definition hello_restores_output : bool := %v.\n\n", o.HelloRestores))
 	sb.WriteString(fmt.Sprintf("Definition n_unknown : nat := %d%%nat.\n", len(o.Unknown)))
 	for _, u := range o.Unknown {
 		sb.WriteString("(* Unknown " + coqComment(u) + " *)\n")
